@@ -31,11 +31,21 @@ def run_sequence(repo, fixed, fix_psi, names):
     return T, ip, mo
 
 
-def same_atoms_diff(repo, fixed, fix_psi, seq):
-    """Compare refreshed operators with freshly built ones *in one atom table*."""
+def same_atoms_diff(repo, fixed, fix_psi, seq, zero_first=False):
+    """Compare refreshed operators with freshly built ones *in one atom table*.
+
+    zero_first: the first potential of the sequence is identically zero.  Only matters if the builders test the *values*
+    of the potential (np.any / count_nonzero ...): such a test is answered "all zero" while the first potential is in force."""
     T, ip = new_interp(repo)
     mesh = mesh_model(repo, ip)
     mo_cls = repo.cls(OPS, "MeshOperators")
+    state = {"nonzero": True, "asked": 0}
+
+    def any_(ip_, a, k):
+        state["asked"] += 1
+        return state["nonzero"]
+    ip.ext_overrides["numpy.any"] = any_
+    ip.ext_overrides["numpy.count_nonzero"] = lambda ip_, a, k: any_(ip_, a, k)
 
     def mk():
         fs = Idx("F", "fixed", "site") if fixed == "F" else (EmptyArr() if fixed == "empty" else None)
@@ -43,10 +53,13 @@ def same_atoms_diff(repo, fixed, fix_psi, seq):
         ip.call_method(mo, "build_operators", [], {})
         return mo
     a = mk()
-    for nm in seq:
+    for i, nm in enumerate(seq):
+        state["nonzero"] = not (zero_first and i == 0)
         ip.call_method(a, "set_link_exponents", [Field(nm, "edge", comps=2)], {})
+    state["nonzero"] = True
     b = mk()
     ip.call_method(b, "set_link_exponents", [Field(seq[-1], "edge", comps=2)], {})
+    ip.value_tests_asked = state["asked"]
     out = {}
     for attr in ("psi_gradient", "psi_laplacian"):
         d = mat_diff(a.attrs[attr], b.attrs[attr])
@@ -65,12 +78,20 @@ def check(ctx):
                       "is reassigned only where the refresh runs; screening refreshes are unconditional", 2)
     ctx.rule("R10.6", "with screening on, every definition of the induced potential reaches the psi update only through a refresh "
                       "with applied + induced potential", 2)
+    ctx.rule("R10.7", "no caller builds the order-parameter operators without link variables (None) when a later refresh "
+                      "would store complex link variables into the real-dtype matrices", 3)
     f_set = repo.func(OPS, "MeshOperators.set_link_exponents")
     configs = [("F", True, "terminals pinned"), ("F", False, "pinning disabled"), ("empty", True, "no terminals")]
     seqs = [["A1", "A2"], ["A1", "A2", "A3"], ["A1", "A1"]]
-    for fixed, fix_psi, desc in configs:
-        for seq in seqs:
-            ip, a, b, diffs, le_ok = same_atoms_diff(repo, fixed, fix_psi, seq)
+    for fixed, fix_psi, desc0 in configs:
+        for seq, zero_first in [(s_, False) for s_ in seqs] + [(["A1", "A2"], True), (["A1", "A2", "A3"], True)]:
+            desc = desc0 + (", first potential identically zero" if zero_first else "")
+            ip, a, b, diffs, le_ok = same_atoms_diff(repo, fixed, fix_psi, seq, zero_first)
+            if zero_first and not ip.value_tests_asked:
+                # the builders never look at the values of the potential: a zero potential is not a special case
+                ctx.ob("R10.1", f"operators do not branch on the values of the potential ({desc0}, {'->'.join(seq)})", True,
+                       detail={"value_tests": 0}, where=f_set.fq, construct=f"value tests in the builders ({desc0})")
+                continue
             for attr, d in diffs.items():
                 ctx.ob("R10.1", f"{attr}: {desc}, sequence {'->'.join(seq)}", not d,
                        detail={"diff": d, "stores": a.attrs[attr].sets, "refreshed": repr(a.attrs[attr])[:600]},
@@ -81,6 +102,7 @@ def check(ctx):
                        consequence="after the second vector-potential update the operator in use is stale or "
                                    "partially updated on the named block")
         # R10.2: unit-carrying blocks of the fresh build == positions written by the refresh
+        desc = desc0
         ip, a, b, _, _ = same_atoms_diff(repo, fixed, fix_psi, ["A1", "A2"])
         for attr in ("psi_gradient", "psi_laplacian"):
             fresh_u = {k[:2] for k, v in b.attrs[attr].merged().items() if has_atom_kind(ip, v, "unit")}
@@ -96,6 +118,7 @@ def check(ctx):
                    message=f"{attr}: blocks carrying the link variable {sorted(fresh_u)} != blocks refreshed {sorted(stored)}",
                    consequence="a link-variable entry is never refreshed (stale) or a link-free entry is overwritten")
     check_triggers(ctx)
+    link_callers(ctx)
     ctx.assume("scipy's sparse __setitem__ overwrites existing entries (R10.1 shows every refreshed position exists in the pattern)")
     ctx.decline("cupy branch of _spmatrix_set_many (GPU only); numerical equality in floating point")
 
@@ -252,3 +275,48 @@ def screening_staleness(ctx, fu, calls):
                message="the order-parameter update can run with link variables that do not include the latest induced vector potential",
                consequence="with screening on, a step (or a screening iteration) uses stale covariant operators",
                witness={"path": cfg.describe_path(wit)[-8:] if wit else None})
+
+
+# ---------------------------------------------------------------------------
+# R10.7 operators built without link variables and refreshed later
+# ---------------------------------------------------------------------------
+
+def none_then_array_unsafe(repo):
+    """Is set_link_exponents(None) followed by set_link_exponents(A) different from a fresh build for A?  (derived, not assumed)"""
+    T, ip = new_interp(repo)
+    mesh = mesh_model(repo, ip)
+    mo_cls = repo.cls(OPS, "MeshOperators")
+    mo = ip.construct(mo_cls, [mesh, EnumVal("SparseSolver.SUPERLU")], {"fixed_sites": Idx("F", "fixed", "site"), "fix_psi": True})
+    ip.call_method(mo, "build_operators", [], {})
+    try:
+        ip.call_method(mo, "set_link_exponents", [None], {})
+        ip.call_method(mo, "set_link_exponents", [Field("A2", "edge", comps=2)], {})
+    except AnalysisError as e:
+        return [f"not analysable: {e}"]
+    return [s for attr in ("psi_gradient", "psi_laplacian") for s in mo.attrs[attr].sets if s.startswith("!")]
+
+
+def link_callers(ctx, rule="R10.7"):
+    from ..dataflow import expand
+    repo = ctx.repo
+    unsafe = none_then_array_unsafe(repo)
+    ctx.note("none_then_array", unsafe[:2])
+    sites = 0
+    for fi in repo.all_functions():
+        if fi.module.name.startswith("tdgl.test") or fi.fq.startswith(f"{OPS}:MeshOperators."):
+            continue
+        for n in own_nodes(fi.node):
+            if isinstance(n, ast.Call) and isinstance(n.func, ast.Attribute) and n.func.attr == "set_link_exponents":
+                sites += 1
+                arg = n.args[0] if n.args else next((k.value for k in n.keywords if k.arg == "link_exponents"), None)
+                ex = expand(fi.node, arg) if arg is not None else None
+                may_none = ex is None or any(isinstance(x, ast.Constant) and x.value is None for x in ast.walk(ex))
+                ctx.ob(rule, f"{fi.qual} L{n.lineno}: {norm(n)} passes a vector potential, never None", not (may_none and unsafe),
+                       detail={"argument": ast.unparse(ex) if ex is not None else None, "none_then_array": unsafe[:2]},
+                       where=fi.fq, construct=f"set_link_exponents argument may be None in {fi.qual}", loc=loc(fi, n),
+                       message=f"{norm(n)} can build the operators without link variables (argument `{ast.unparse(ex) if ex is not None else None}`): "
+                               f"they are real-valued, and a later set_link_exponents(A) stores complex link variables into them: {unsafe[:1]}",
+                       consequence="a run that starts with zero vector potential and later receives a non-zero one (time-dependent field, "
+                                   "screening) keeps only the real part of the link variables: the refreshed operators differ from a rebuild")
+    if sites < 3:
+        raise AnalysisError(f"expected >=3 set_link_exponents call sites outside MeshOperators, found {sites}")
